@@ -210,6 +210,9 @@ pub fn observe(m: &mut Mdl, c: &Call, r: &mut Rules, w: usize) {
                 r.label("c06.erase");
             }
         }
+        CallKind::SetPingrespTo(d) => {
+            m.pingresp_to = *d;
+        }
         CallKind::SetInterval(d) => {
             m.user_interval = *d;
             if pre.st == St::Disc && !resets.is_empty() {
@@ -449,7 +452,7 @@ pub fn observe(m: &mut Mdl, c: &Call, r: &mut Rules, w: usize) {
     }
     if sends.iter().any(|a| matches!(a, AP::Pingreq { .. })) {
         let got: Vec<u64> = resets.iter().filter(|x| x.0 == Tk::PingrespRecv).map(|x| x.1).collect();
-        let t = r.cfg.pingresp_to;
+        let t = m.pingresp_to;
         if t != 0 {
             r.label("c15.pingresp-timer-armed");
             if got != vec![t] {
@@ -667,7 +670,9 @@ fn on_recv(m: &mut Mdl, pre: &Mdl, ap: &AP, frame: &[u8], c: &Call, r: &mut Rule
     // C14 inbound: a frame larger than the locally announced maximum is not delivered and is answered
     if v5 {
         if let Some(l) = pre.link.own_mps {
-            if frame.len() as u64 > l as u64 && !matches!(ap, AP::Connect { .. } | AP::Connack { .. }) {
+            // (a client's limit is in force from its CONNECT on, so it covers the CONNACK; a server's own
+            // limit is announced in its CONNACK and cannot cover the CONNECT)
+            if frame.len() as u64 > l as u64 && !matches!(ap, AP::Connect { .. }) {
                 r.label("c14.inbound-oversize");
                 let disc = c.sends().iter().any(|a| matches!(a, AP::Disconnect { code: Some(0x95), .. }));
                 if delivered {
